@@ -202,4 +202,13 @@ example : ∃ cs, tryGetMultipleMut [[(.ty 1, fresh 2)], [(.ty 0, fresh 1)]] [.t
 example : holdsOn [.ex (.op (.ins (.ty 0) 1)), .ex (.hold (.ty 0) 1 false .nil), .borMut (.ty 0), .bor (.ty 0),
     .locks] = true := by decide
 
+example : ∃ g, g ∈ (mrun M.init [.ex (.op (.ins (.ty 0) 1)), .borMut (.ty 0)]).1.guards ∧ g.excl = true :=
+  ⟨⟨0, 0, .ty 0, true⟩, by decide, rfl⟩
+example : nonWriting (.bor (.ty 0)) = true ∧ nonWriting (.drop 0) = true ∧ nonWriting (.sh (.tryGet (.ty 0))) = true ∧
+    nonWriting (.sh (.set (.ty 0) 1)) = false := by decide
+example : find (mrun M.init [.ex (.op (.ins (.ty 0) 1)), .ex (.op .push), .ex (.op (.ins (.ty 1) 1)),
+    .borMut (.ty 1)]).1.reg (.ty 0) = some 1 := by decide
+example : nodupKeys [[(.ty 1, fresh 2), (.ty 0, fresh 4)], [(.ty 0, fresh 1)]] := by
+  simp [nodupKeys, Scope.nodupKeys, Scope.keys]
+
 end MahfModel.Props.C02
